@@ -1613,6 +1613,7 @@ def probes(rng, tier):
     out.extend(legacy2_probes(rng, tier))
     out.extend(out_contract_probes(rng, tier))
     out.extend(position_probes(rng, tier))
+    out.extend(result_space_probes(rng, tier))
     return out
 
 
@@ -1622,7 +1623,7 @@ def search(rng, broken):
     operand positions, binary legacy operands, memory layouts) with fresh data and return the first failing
     probe that is not a recorded finding"""
     known = C.load_findings(PID)
-    for fam in (out_contract_probes, position_probes, legacy2_probes, structural_probes):
+    for fam in (result_space_probes, out_contract_probes, position_probes, legacy2_probes, structural_probes):
         for p in fam(rng, 'thorough'):
             if not p.ok and p.key not in known:
                 return p
@@ -2086,6 +2087,192 @@ def out_contract_probes(rng, tier):
                            % (spec['iface'], spec['space']['kind'], spec['space']['shape'], spec['op'][0],
                               '' if spec['op'][1] == '__call__' else '.' + spec['op'][1], spec['outs']),
                            rp, {'category': cat, 'observed': obs, 'expected': exp}))
+    return out
+
+
+# ---- result-space construction for every pair of input weighting kinds
+def _ws_inner(x, y):
+    return float(np.real(np.vdot(np.asarray(y), np.asarray(x))))
+
+
+def _ws_norm(x):
+    return float(np.sqrt(np.sum(np.abs(np.asarray(x)) ** 2)))
+
+
+W_KINDS = ['none', 'const', 'array', 'inner', 'norm']
+
+
+def _ws_space(kind, w, shape, dtype):
+    import odl
+    shape = tuple(shape)
+    rdt = {'float32': 'float32', 'complex64': 'float32'}.get(dtype, 'float64')
+    kw = {}
+    if w == 'const':
+        kw['weighting'] = 2.0
+    elif w == 'array':
+        kw['weighting'] = np.arange(1, 1 + int(np.prod(shape)), dtype=rdt).reshape(shape)
+    elif w == 'inner':
+        kw['inner'] = _ws_inner
+    elif w == 'norm':
+        kw['norm'] = _ws_norm
+    ts = odl.tensor_space(shape, dtype=dtype, **kw)
+    if kind == 'tens':
+        return ts
+    part = odl.uniform_partition([0.0] * len(shape), [float(k) / 2 for k in shape], shape)
+    if w == 'none':
+        return odl.uniform_discr([0.0] * len(shape), [float(k) / 2 for k in shape], shape, dtype=dtype)
+    return odl.DiscretizedSpace(part, ts)
+
+
+def _w_descr(sp):
+    from odl.space.weighting import ConstWeighting, ArrayWeighting
+    w = sp.weighting
+    if isinstance(w, ConstWeighting):
+        return ('const', float(w.const), float(sp.exponent))
+    if isinstance(w, ArrayWeighting):
+        return ('array', np.asarray(w.array).tolist(), float(sp.exponent))
+    return (type(w).__name__, id(getattr(w, 'inner', None) or getattr(w, 'norm', None) or getattr(w, 'dist', None)),
+            float(sp.exponent))
+
+
+def result_space_eval(spec):
+    """values against NumPy and the attributes of the result space against the documented / modelled rules"""
+    import odl
+    kind, method, dtype = spec['kind'], spec['method'], spec['dtype']
+    uf = getattr(np, spec['ufunc'])
+    s1 = _ws_space(kind, spec['w1'], spec['shape1'], dtype)
+    x = s1.element(np.array(spec['x'], dtype=dtype).reshape(spec['shape1']))
+    A = np.asarray(x).copy()
+    y = B = None
+    if method in ('outer', 'call2'):
+        s2 = _ws_space(kind, spec['w2'], spec['shape2'], dtype)
+        y = s2.element(np.array(spec['y'], dtype=dtype).reshape(spec['shape2']))
+        B = np.asarray(y).copy()
+    with np.errstate(all='ignore'):
+        if method == 'outer':
+            ref = uf.outer(A, B)
+        elif method == 'call2':
+            ref = uf(A, B)
+        elif method == 'call1':
+            ref = uf(A)
+        elif method == 'reduce':
+            ref = uf.reduce(A, axis=spec['axis'])
+        else:
+            ref = uf.accumulate(A, axis=spec['axis'])
+    try:
+        with np.errstate(all='ignore'):
+            if method == 'outer':
+                r = uf.outer(x, y)
+            elif method == 'call2':
+                r = uf(x, y)
+            elif method == 'call1':
+                r = uf(x)
+            elif method == 'reduce':
+                r = uf.reduce(x, axis=spec['axis'])
+            else:
+                r = uf.accumulate(x, axis=spec['axis'])
+    except Exception as e:      # noqa
+        return False, 'raises', '%s: %s' % (type(e).__name__, str(e)[:110]), 'NumPy returns shape %s' % (np.shape(ref),)
+    if np.ndim(ref) == 0:
+        return (bool(np.isscalar(r) and _same(r, ref)), 'scalar', repr(r), repr(ref))
+    if not isinstance(r, type(x)):
+        return False, 'kind', type(r).__name__, type(x).__name__
+    if not _same(np.asarray(r), ref) or np.asarray(r).dtype != ref.dtype:
+        return False, 'values', np.asarray(r).tolist(), ref.tolist()
+    sp = r.space
+    if tuple(sp.shape) != ref.shape or sp.dtype != ref.dtype:
+        return False, 'shape-dtype', (tuple(sp.shape), str(sp.dtype)), (ref.shape, str(ref.dtype))
+    # ---- weighting rule
+    floating = ref.dtype.kind in 'fc'
+    tsp = sp if kind == 'tens' else sp.tspace
+    got = _w_descr(tsp)
+    w1d = _w_descr(s1 if kind == 'tens' else s1.tspace)
+    same_shape = ref.shape == tuple(s1.shape)
+    if not floating:
+        want = ('const', 1.0, 2.0)
+    elif kind == 'disc' and method == 'outer':
+        w2d = _w_descr(s2.tspace)
+        if w1d[0] == 'const' and w2d[0] == 'const':
+            want = ('const', w1d[1] * w2d[1], w1d[2])
+        else:
+            want = ('const', 1.0, w1d[2])
+    elif kind == 'disc' and method == 'reduce' and not same_shape:
+        kept = [i for i in range(len(spec['shape1'])) if i != spec['axis'] % len(spec['shape1'])]
+        if w1d[0] == 'const':
+            want = ('const', float(np.prod([s1.partition.cell_sides[i] for i in kept])), w1d[2])
+        else:
+            want = None          # array / custom weightings: no documented rule (array: finding discr-reduce-array-weighting)
+    elif same_shape:
+        want = w1d
+    else:
+        want = ('const', 1.0, w1d[2])
+    if want is not None:
+        ok = (got[0] == want[0] and got[2] == want[2] and
+              (np.allclose(got[1], want[1], rtol=1e-12, atol=0) if got[0] in ('const', 'array') else got[1] == want[1]))
+        if not ok:
+            return False, 'weighting', got if got[0] != 'array' else ('array', '...', got[2]), \
+                want if want[0] != 'array' else ('array', '...', want[2])
+    # ---- partition of a discretized result
+    if kind == 'disc':
+        p = sp.partition
+        if method == 'outer':
+            wmin = list(s1.partition.min_pt) + list(s2.partition.min_pt)
+            wmax = list(s1.partition.max_pt) + list(s2.partition.max_pt)
+        elif method == 'reduce' and not same_shape:
+            wmin = [s1.partition.min_pt[i] for i in kept]
+            wmax = [s1.partition.max_pt[i] for i in kept]
+        else:
+            wmin, wmax = list(s1.partition.min_pt), list(s1.partition.max_pt)
+        if not (np.allclose(p.min_pt, wmin) and np.allclose(p.max_pt, wmax)):
+            return False, 'partition', (list(p.min_pt), list(p.max_pt)), (wmin, wmax)
+    if not _same(np.asarray(x), A):
+        return False, 'input-changed', None, None
+    return True, '', None, None
+
+
+def result_space_specs(rng, tier):
+    for kind in ('disc', 'tens'):
+        for dtype in ('float64', 'float32', 'complex128'):
+            def data(shape):
+                return [rng.randint(-3, 3) for _ in range(int(np.prod(shape)))]
+            for w1 in W_KINDS:
+                for w2 in W_KINDS:
+                    for name in ('multiply', 'add') + (('less',) if dtype != 'complex128' else ()):
+                        sh1, sh2 = rng.choice([[2], [3], [2, 2]]), rng.choice([[2], [3]])
+                        yield {'kind': kind, 'method': 'outer', 'ufunc': name, 'dtype': dtype, 'w1': w1, 'w2': w2,
+                               'shape1': sh1, 'shape2': sh2, 'x': data(sh1), 'y': data(sh2)}
+                    sh = rng.choice([[3], [2, 3]])
+                    yield {'kind': kind, 'method': 'call2', 'ufunc': 'add', 'dtype': dtype, 'w1': w1, 'w2': w2,
+                           'shape1': sh, 'shape2': sh, 'x': data(sh), 'y': data(sh)}
+                sh = rng.choice([[2, 3], [3, 2], [2, 2, 2]])
+                for ax in range(-len(sh), len(sh)):
+                    yield {'kind': kind, 'method': 'reduce', 'ufunc': 'add', 'dtype': dtype, 'w1': w1, 'shape1': sh,
+                           'axis': ax, 'x': data(sh)}
+                yield {'kind': kind, 'method': 'accumulate', 'ufunc': 'add', 'dtype': dtype, 'w1': w1, 'shape1': sh,
+                       'axis': rng.randrange(len(sh)), 'x': data(sh)}
+                for name in ('negative', 'isfinite', 'absolute'):
+                    yield {'kind': kind, 'method': 'call1', 'ufunc': name, 'dtype': dtype, 'w1': w1, 'shape1': sh,
+                           'x': data(sh)}
+
+
+def result_space_probes(rng, tier):
+    out = []
+    for spec in result_space_specs(rng, tier):
+        try:
+            ok, cat, obs, exp = result_space_eval(spec)
+        except Exception as e:      # noqa
+            ok, cat, obs, exp = False, 'probe-crash', repr(e), None
+        rp = ("import sys\nsys.path.insert(0, %r)\nfrom harness.c17 import result_space_eval\nspec = %r\n"
+              "ok, category, observed, expected = result_space_eval(spec)\nok = bool(ok)\n" % (C.VERIF, spec))
+        key = 'result-space-%s-%s-%s-%s-%s' % (spec['kind'], spec['method'], spec['w1'], spec.get('w2', ''), cat)
+        if spec['kind'] == 'disc' and spec['method'] == 'reduce' and spec['w1'] == 'array' and cat == 'raises':
+            key = 'discr-reduce-array-weighting'
+        out.append(C.Probe(bool(ok), key if not ok else 'ok',
+                           'np.%s%s on %s elements with weightings (%s%s), %s: values as NumPy and the result space '
+                           '(shape, dtype, weighting rule, partition) as documented'
+                           % (spec['ufunc'], {'outer': '.outer', 'reduce': '.reduce', 'accumulate': '.accumulate'}.get(
+                               spec['method'], ''), spec['kind'], spec['w1'], ', ' + spec['w2'] if 'w2' in spec else '',
+                              spec['dtype']), rp, {'category': cat, 'observed': obs, 'expected': exp}))
     return out
 
 
